@@ -57,6 +57,9 @@ func init() {
 		g.callSeq(c14Group, c14Pkg, "Registration.updateNodePoolRegistrationHealth", "registrationPoolHealthErrorCalls", errMakers)
 		// Registration.syncNode: what the value of the do-not-sync-taints label is compared with
 		g.c14LabelComparisons(c14Pkg, "Registration.syncNode", "doNotSyncComparisons")
+		// truncateMessage (provider error text -> event / LaunchFailed condition message): what the length guard measures
+		// and what the cut slices (both the string itself, i.e. bytes), and the limit
+		g.c14Truncate(c14Pkg, "truncateMessage")
 		// taints and labels
 		g.strConst(c14Group, "pkg/apis/v1", "UnregisteredTaintKey", "unregisteredTaintKey")
 		g.c14TaintVar("pkg/apis/v1", "UnregisteredNoExecuteTaint", "unregisteredTaint")
@@ -87,6 +90,65 @@ func (g *gen) c14EmitSeconds(v constant.Value, what, lean string) {
 		return
 	}
 	fmt.Fprintf(g.out(c14Group), "/-- %s, in seconds -/\ndef %s : Nat := %d\n\n", what, lean, ns/1_000_000_000)
+}
+
+// c14Truncate emits, for the message-truncating function fn: every comparison `len(<x>) <op> <const>` as
+// (x, op, const) and every slice expression `<x>[lo:hi]` with constant bounds as (x, lo, hi) (an absent bound is 0 for
+// lo; an absent hi is not emitted as a constant: the slice is then listed with hi = 0), in source order. A guard on
+// len(msg) with a cut of msg itself measures and cuts the same thing (bytes); a cut of a converted value ([]rune(msg))
+// under a guard on len(msg) does not.
+func (g *gen) c14Truncate(pkgPath, fn string) {
+	p, fd := g.findFunc(pkgPath, fn)
+	if fd == nil {
+		return
+	}
+	intOf := func(e ast.Expr) (int64, bool) {
+		if e == nil {
+			return 0, true
+		}
+		tv, ok := p.TypesInfo.Types[e]
+		if !ok || tv.Value == nil {
+			return 0, false
+		}
+		return constant.Int64Val(constant.ToInt(tv.Value))
+	}
+	var guards, slices []string
+	ast.Inspect(fd.Body, func(n ast.Node) bool {
+		switch x := n.(type) {
+		case *ast.BinaryExpr:
+			ce, ok := x.X.(*ast.CallExpr)
+			if !ok || exprString(ce.Fun) != "len" || len(ce.Args) != 1 {
+				return true
+			}
+			v, ok := intOf(x.Y)
+			if !ok {
+				g.errf("%s.%s: %s: length compared with a non-constant", pkgPath, fn, g.pos(x.Pos()))
+				return true
+			}
+			guards = append(guards, fmt.Sprintf("(%s, %s, %d)", leanStr(exprString(ce.Args[0])), leanStr(x.Op.String()), v))
+		case *ast.SliceExpr:
+			lo, ok1 := intOf(x.Low)
+			hi, ok2 := intOf(x.High)
+			if !ok1 || !ok2 {
+				g.errf("%s.%s: %s: slice bound is not constant", pkgPath, fn, g.pos(x.Pos()))
+				return true
+			}
+			slices = append(slices, fmt.Sprintf("(%s, %d, %d)", leanStr(exprString(x.X)), lo, hi))
+		}
+		return true
+	})
+	b := g.out(c14Group)
+	fmt.Fprintf(b, "/-- the comparisons `len(<x>) <op> <constant>` inside `%s.%s` (%s): (x, op, constant) -/\ndef truncateGuards : List (String × String × Nat) := [%s]\n\n",
+		pkgPath, fn, g.pos(fd.Pos()), strings.Join(guards, ", "))
+	fmt.Fprintf(b, "/-- the slice expressions `<x>[lo:hi]` inside `%s.%s`: (x, lo, hi) -/\ndef truncateSlices : List (String × Nat × Nat) := [%s]\n\n",
+		pkgPath, fn, strings.Join(slices, ", "))
+	if len(slices) == 1 {
+		var hi int64
+		fmt.Sscanf(slices[0][strings.LastIndex(slices[0], ",")+1:], "%d)", &hi)
+		fmt.Fprintf(b, "/-- the cut of `%s.%s`: bytes kept before the \"...\" -/\ndef truncateLimit : Nat := %d\n\n", pkgPath, fn, hi)
+	} else {
+		g.errf("%s.%s: expected exactly one slice expression, found %d", pkgPath, fn, len(slices))
+	}
 }
 
 // c14CallArgSeconds finds the first call to `callee` inside fn and emits its idx-th argument (a constant duration).
